@@ -89,6 +89,36 @@ def _e3(args):
     return part
 
 
+def lengthrange_models(thorough):
+    """Actuator sequences over {motor, muscle, muscle with an existing range}: `mjCModel::LengthRange` simulates only the
+    actuators that need a range and splits the actuator list over threads, so the position of the skipped ones in the
+    list matters.  Every sequence of length 2..nmax with at least two muscles; one hinge body per actuator, distinct
+    joint ranges so that a range assigned to the wrong actuator is visible."""
+    out = []
+    nmax = 6 if thorough else 5
+    for n in range(2, nmax + 1):
+        for seq in itertools.product("mMe", repeat=n):
+            if sum(c == "M" for c in seq) < 2:
+                continue
+            if not thorough and n == nmax and seq.count("e") > 1:
+                continue
+            bodies, acts = [], []
+            for i, c in enumerate(seq):
+                bodies.append('    <body name="lb%d" pos="%d 0 1"><joint name="lj%d" axis="0 1 0" range="%d %d" limited="true"/>'
+                              '<geom type="capsule" size="0.03" fromto="0 0 0 0.3 0 0"/></body>' % (i, i, i, -20 - 5 * i, 30 + 7 * i))
+                if c == "m":
+                    acts.append('    <motor name="la%d" joint="lj%d" gear="%d"/>' % (i, i, i + 1))
+                elif c == "M":
+                    acts.append('    <muscle name="la%d" joint="lj%d" gear="%g"/>' % (i, i, 0.1 * (i + 1)))
+                else:
+                    acts.append('    <muscle name="la%d" joint="lj%d" lengthrange="0.1 0.9"/>' % (i, i))
+            xml = ('<mujoco>\n  <compiler angle="degree"><lengthrange useexisting="true" inttotal="2" interval="1" tolrange="0.2"/></compiler>\n'
+                   '  <option timestep="0.01"/>\n  <worldbody>\n%s\n  </worldbody>\n  <actuator>\n%s\n  </actuator>\n</mujoco>\n'
+                   % ("\n".join(bodies), "\n".join(acts)))
+            out.append(("lengthrange[%s]" % "".join(seq), xml))
+    return out
+
+
 def _e1_models(thorough):
     out = []
     nmax = 3 if thorough else 2
@@ -102,6 +132,7 @@ def _e1_models(thorough):
         for nt in (0, 2, 3):
             out.append(("assets%d_%d" % (nm, nt), asset_model(nm, nt)))
     out.append(("randtex", random_texture_model()))
+    out += lengthrange_models(thorough)
     feat = ('<tendon><fixed name="t"><joint joint="j0_0" coef="1"/><joint joint="j1_0" coef="-1"/></fixed></tendon>\n'
             '<equality><joint joint1="j0_0" joint2="j1_0"/></equality>\n'
             '<actuator><motor joint="j0_0"/><position joint="j1_0" kp="2"/></actuator>\n'
@@ -144,6 +175,12 @@ def _e1(chunk):
         # asset thread pool on/off (free-running real threads here; all schedules are the E3 part)
         if "<compiler " in xml:
             m5 = lib.load_xml(xml.replace("<compiler ", '<compiler usethread="false" ', 1))
+            if name.startswith("lengthrange["):
+                part.count(1, key="lengthrange threaded vs serial, %d muscles" % name.count("M"))
+                lr = np.array(m1.actuator_lengthrange).reshape(-1, 2)
+                for i, c in enumerate(name[len("lengthrange["):-1]):
+                    if c == "M" and not lr[i, 0] < lr[i, 1]:
+                        bad("muscle without a computed length range (threaded compile)", "actuator_lengthrange[%d]" % i)
             f = lib.model_diff(m1, m5)
             if f:
                 bad("usethread=false vs true", f)
